@@ -126,8 +126,11 @@ func genInit(rng *prng.R, nmp int, tag *int64, grpc bool) op {
 	return o
 }
 
-func genSeqCase(rng *prng.R, idx int) seqCase {
-	c := seqCase{Idx: idx, GRPC: rng.Chance(1, 6), NMP: rng.Range(2, 5)}
+// grpcOneIn: one case in that many runs through the real gRPC server and client (6 in the
+// quick tier, 10 in the thorough tier: on a tree where a request can crash the manager every
+// such crash costs a child restart).
+func genSeqCase(rng *prng.R, idx int, grpcOneIn int) seqCase {
+	c := seqCase{Idx: idx, GRPC: rng.Chance(1, grpcOneIn), NMP: rng.Range(2, 5)}
 	n := rng.Range(8, 28)
 	var tag int64
 	pickMP := func() int {
